@@ -6,7 +6,7 @@ import json, os, shutil, subprocess, sys, tempfile, glob, time
 
 agent, prop = sys.argv[1], sys.argv[2]
 tier = sys.argv[3] if len(sys.argv) > 3 else "quick"
-name = os.path.basename(agent.rstrip("/"))
+name = os.environ.get("NAME") or os.path.basename(agent.rstrip("/"))
 env = dict(os.environ, GOFLAGS="-mod=mod", GOPROXY="off", GOSUMDB="off")
 out = os.path.join(agent, "OUT")
 only = os.environ.get("ONLY")
